@@ -40,16 +40,26 @@ IntStep(op, acc, x) ==
     IF acc.d # 0 \/ x.d # 0
     THEN (LET r == IntStepOff(op, acc, x) IN IF IsOut(r) THEN r ELSE IF FitsI64(r) THEN r ELSE OutV)
     ELSE
-    LET r == CASE op = "add"      -> IF CanAlign(acc, x) THEN AddV(acc, x) ELSE OutV
-               [] op = "subtract" -> IF CanAlign(acc, x) THEN SubV(acc, x) ELSE OutV
+    LET r == CASE op = "add"      -> IF CanAlign(acc, x) THEN AddV(acc, x) ELSE IF IsUnit(x) \/ IsUnit(acc) THEN AddOff(acc, x) ELSE OutV
+               [] op = "subtract" -> IF CanAlign(acc, x) THEN SubV(acc, x) ELSE IF IsUnit(x) \/ IsUnit(acc) THEN AddOff(acc, NegOff(x)) ELSE OutV
                [] op = "multiply" -> IF CanMul(acc, x) THEN MulV(acc, x) ELSE OutV
                [] op = "divide"   -> IF CanIntDiv(acc, x) THEN IntDivV(acc, x) ELSE OutV
     IN IF IsOut(r) THEN r ELSE IF FitsI64(r) THEN r ELSE OutV
 
+(* a float step with a neighbour of a power of two is exact only while the result is an integer below 2^53 *)
+ExactSmallInt(r) == Finite(r) /\ ~IsOut(r) /\ NormV(r).e >= 0 /\ Mag(Big(r)) <= 53
 FltStep(op, acc, x) ==
-    IF ~Finite(acc) \/ acc.d # 0 \/ x.d # 0 THEN OutV        \* inf/nan only modelled as a final result; an integer that is no f64 is rounded: not modelled
-    ELSE CASE op = "add"      -> IF CanAlign(acc, x) THEN AddV(acc, x) ELSE OutV
-           [] op = "subtract" -> IF CanAlign(acc, x) THEN SubV(acc, x) ELSE OutV
+    IF ~Finite(acc) THEN OutV        \* inf/nan only modelled as a final result
+    ELSE IF acc.d # 0 \/ x.d # 0
+    THEN (IF ExactSmallInt(acc) /\ ExactSmallInt(x) /\ op # "divide"
+          THEN (LET r == IntStepOff(op, acc, x) IN IF ~IsOut(r) /\ ExactSmallInt(r) THEN r ELSE OutV)
+          ELSE OutV)                 \* an operand that is no f64 is rounded first: not modelled
+    ELSE CASE op = "add"      -> IF CanAlign(acc, x) THEN AddV(acc, x)
+                                   ELSE IF (IsUnit(x) \/ IsUnit(acc)) /\ ExactSmallInt(acc) /\ ExactSmallInt(x)
+                                   THEN (LET r == AddOff(acc, x) IN IF ~IsOut(r) /\ ExactSmallInt(r) THEN r ELSE OutV) ELSE OutV
+           [] op = "subtract" -> IF CanAlign(acc, x) THEN SubV(acc, x)
+                                   ELSE IF (IsUnit(x) \/ IsUnit(acc)) /\ ExactSmallInt(acc) /\ ExactSmallInt(x)
+                                   THEN (LET r == AddOff(acc, NegOff(x)) IN IF ~IsOut(r) /\ ExactSmallInt(r) THEN r ELSE OutV) ELSE OutV
            [] op = "multiply" -> IF CanMul(acc, x) THEN MulV(acc, x) ELSE OutV
            [] op = "divide"   -> IF CanFltDiv(acc, x) THEN FltDivV(acc, x) ELSE OutV
 
@@ -69,6 +79,7 @@ WalkSeq(ts, b) == IF ts = <<>> THEN <<>> ELSE <<Walk(Head(ts), b)>> \o WalkSeq(T
 EvalArith(op, args, b) ==
     LET ws == WalkSeq(args, b) IN
     IF ws = <<>> \/ \E i \in DOMAIN ws : ~IsNum(ws[i]) \/ (ws[i].k = "int" /\ ~FitsI64(ValOf(ws[i])))
+                 \/ (ws[i].k = "flt" /\ ws[i].s \in {"+1", "-1"} /\ Mag(Val(ws[i].n, ws[i].e)) > 53)          \* (not an f64)
     THEN [st |-> "out", v |-> NoT]
     ELSE
       LET isFlt == \E i \in DOMAIN ws : ws[i].k = "flt"
